@@ -59,10 +59,25 @@ def _keyset(t, values):
     return None, False
 
 
+class SharedState(Exception):
+    def __init__(self, field, param, default, summary):
+        super().__init__(field)
+        self.field, self.param, self.default, self.summary = field, param, default, summary
+
+
 def check(run):
     prog = run.prog
     cls = prog.find_class(CLS)
     run.need(cls is not None, f"anchor class {CLS} vanished")
+    try:
+        _fields(prog, cls)
+    except SharedState as e:
+        run.fail("TYPESTATE", "init.own-state", f"{e.summary.path}:{e.summary.fn.lineno}", f"{CLS}.__init__",
+                 f"self.{e.field} = {e.param} (default {e.default})",
+                 f"the dict of per-key trackers must be created for each instance; self.{e.field} is the constructor "
+                 f"argument `{e.param}` whose default `{e.default}` is evaluated once and shared by every tracker built "
+                 f"without it (keys and values of different instances mix)")
+        return
     _init(run, prog, cls)
     _update(run, prog, cls)
     _nomut(run, prog, cls)
@@ -96,6 +111,16 @@ def _fields(prog, cls):
     bp = ("param", [a.arg for a in fn.args.args][1])
     bf = [f for f, t in s.fields.items() if bp in ir.subterms(t)][0]
     dicts = [f for f, t in s.fields.items() if t[0] == "new" and t[2] == "dict"]
+    if not dicts:
+        # the per-key dict handed in (or defaulted) through the constructor: not a container of this instance
+        import ast
+        names = [a.arg for a in fn.args.args]
+        defaults = dict(zip(names[len(names) - len(fn.args.defaults):], fn.args.defaults))
+        for f, t in s.fields.items():
+            leaves = [t] if t[0] != "gate" else [x for x in ir.subterms(t) if x[0] == "param"]
+            for leaf in leaves:
+                if leaf[0] == "param" and leaf != bp and isinstance(defaults.get(leaf[1]), (ast.Dict, ast.Call)):
+                    raise SharedState(f, leaf[1], ast.unparse(defaults[leaf[1]]), s)
     sets = [f for f, t in s.fields.items() if t[0] == "new" and t[2] == "set"]
     if len(dicts) != 1 or len(sets) != 1:
         raise AnalysisError(f"MultiValueTracker state is not one dict + one key set: dicts={dicts} sets={sets}")
@@ -187,6 +212,40 @@ def _update(run, prog, cls):
         if not bad:
             run.ok("TYPESTATE", "U1.update", f"{len(ps)} per-iteration paths (incl. KeyError edges): one update(values[key]) each")
             run.ok("TYPESTATE", "U2.fresh", "new key: deepcopy(base tracker), registered, then updated")
+    # ---- U2 (bulk registration): trackers may also enter the dict through dict.update / setdefault / |= ------
+    for ev, ctx in walk(s.events):
+        bulk = None
+        if isinstance(ev, ir.Call) and ev.callee == f"self.{tf}" and ev.method in ("update", "setdefault", "__ior__"):
+            bulk = ev
+        elif isinstance(ev, ir.Mut) and ev.recv == T and ev.method in ("update", "setdefault", "__ior__"):
+            bulk = ev
+        elif isinstance(ev, ir.Store) and ev.field == tf and ev.aug is not None:
+            bulk = ev
+        if bulk is None:
+            continue
+        d = (bulk.args[-1] if bulk.args else None) if not isinstance(bulk, ir.Store) else bulk.value
+        if isinstance(bulk, ir.Store) and d is not None and d[0] == "op":
+            d = d[3]
+        vals = []
+        if d is not None and d[0] == "comp" and d[1] == "dict":
+            vals = [(d[5], d[2])]
+        elif d is not None and d[0] == "new" and d[2] == "dict":
+            vals = [(i[2], None) for i in d[3] if i[0] == "kv"]
+        elif bulk.method == "setdefault" if not isinstance(bulk, ir.Store) else False:
+            vals = [(bulk.args[1], None)] if len(bulk.args) > 1 else []
+            lp = ctx.loops[-1] if ctx.loops else None
+            vals = [(v, lp.lid if lp else None) for v, _ in vals]
+        if not vals:
+            raise AnalysisError(f"{fq}: trackers are written into the per-key dict in a way that is not followed: "
+                                f"{run.stmt_text(s.path, bulk.line)}")
+        for v, lid in vals:
+            fresh = v[0] == "new" and v[2] == "deepcopy" and v[3] == (("field0", bf),)
+            per_key = fresh and (lid is None or lid in (ir.site_loops(v) or ()))
+            why = "" if per_key else ("one deep copy is made outside the per-key loop and shared by all new keys (their "
+                                      "updates accumulate in one tracker)" if fresh else f"it gets {ir.show_nl(v)[:100]}")
+            run.check(per_key, "TYPESTATE", "U2.fresh", f"{s.path}:{bulk.line}", fq, f"bulk registration: {why or 'ok'}",
+                      f"every new key must get its own fresh deepcopy of the base tracker: {why}",
+                      "bulk registration: one deepcopy(base) per new key")
     # ---- U3 ------------------------------------------------------------------------------------
     if len(zero) != 1:
         run.fail("TYPESTATE", "U3.loop", f"{s.path}:{s.fn.lineno}", fq, f"{len(zero)} zero-fill loops",
